@@ -175,7 +175,7 @@ theorem sumSpec_snoc_int (ns : List Num) (i : Int) (h : absIntSum (ns ++ [.int i
     rw [anyFlt_append, ratSum_append, intSum_append]
     by_cases hf : anyFlt ns
     · simp [hf, sumStep, Num.toCV, anyFlt, Num.isFlt, ratSum, Num.toRat, Rat.add_zero]
-    · have hw : wrapS64 (intSum ns + i) = intSum ns + i := wrapS64_of_inRange _ (by omega)
+    · have hw := addInt_of_inRange (intSum ns) i (by omega)
       simp [hf, sumStep, Num.toCV, anyFlt, Num.isFlt, intSum, Num.intPart, hw]
 
 theorem sumSpec_snoc_flt (ns : List Num) (f : Rat) (h : absIntSum ns < 9223372036854775808) :
@@ -329,5 +329,141 @@ theorem mergeRB_n_sum (xs ys : List Val) (h : absIntSum (nums (parseFast exact) 
     (mergeRB exact (foldRB exact xs) (foldRB exact ys)).map (fun b => (b.n, b.sum, b.nc, b.cx)) =
       (foldRB exact (xs ++ ys)).map (fun b => (b.n, b.sum, b.nc, b.cx)) :=
   mergeRBWith_n_sum (parseFast exact) xs ys h
+
+/-! ### the bucket's Sum cell read as a number: no guard (patch c04-15) -/
+
+/-- the Sum cell `c` of a bucket that has seen the numeric values `ns`: BACKFILL when there is none, else a number cell
+whose VALUE is their mathematical sum (int64 or, once the sum left int64 or a float arrived, float64) -/
+def SumOK (c : CV) (ns : List Num) : Prop :=
+  (ns = [] ∧ c = .backfill) ∨ (ns ≠ [] ∧ c.rat? = some (ratSum ns))
+
+theorem addInt_toCV_rat (a i : Int) : (addInt exact a i).toCV.rat? = some ((a : Rat) + (i : Rat)) := by
+  unfold addInt
+  by_cases h : fitsI64 (a + i) <;> simp [h, Num.toCV, CV.rat?, Rat.intCast_add]
+
+theorem sumStep_rat (s e : CV) (x y : Rat) (hs : s.rat? = some x) (he : e.rat? = some y) :
+    (sumStep exact s e).rat? = some (x + y) := by
+  cases s <;> cases e <;> simp_all [sumStep, CV.rat?]
+  rename_i a i
+  subst hs; subst he
+  exact addInt_toCV_rat a i
+
+theorem sumStep_SumOK_num (c : CV) (ns : List Num) (x : Num) (h : SumOK c ns) :
+    SumOK (sumStep exact c x.toCV) (ns ++ [x]) := by
+  right
+  refine ⟨by simp, ?_⟩
+  rcases h with ⟨rfl, rfl⟩ | ⟨_, hr⟩
+  · cases x <;> simp [sumStep, Num.toCV, CV.rat?, ratSum, Num.toRat, Rat.add_zero]
+  · have hx : x.toCV.rat? = some x.toRat := by cases x <;> rfl
+    rw [sumStep_rat c x.toCV _ _ hr hx, ratSum_append]
+    simp [ratSum, Rat.add_zero]
+
+theorem sumStep_SumOK_nonnum (c : CV) (ns : List Num) (e : CV) (h : SumOK c ns)
+    (he : e = .backfill ∨ ∃ s, e = .str s) : SumOK (sumStep exact c e) ns := by
+  rcases h with ⟨rfl, rfl⟩ | ⟨hne, hr⟩
+  · left; rcases he with rfl | ⟨s, rfl⟩ <;> simp [sumStep]
+  · right
+    refine ⟨hne, ?_⟩
+    rcases he with rfl | ⟨s, rfl⟩ <;> cases c <;> simp_all [sumStep, CV.rat?]
+
+/-- the bucket after any list, every string rule, NO overflow guard: records, Sum cell (as a number), numeric count, Count cell -/
+theorem foldRBWith_val (parse : Str → Option Rat) (vs : List Val) :
+    (vs = [] ∧ foldRBWith parse exact vs = none) ∨
+    (∃ b, foldRBWith parse exact vs = some b ∧ b.n = vs.length ∧ vs ≠ [] ∧ SumOK b.sum (nums parse vs) ∧
+      b.nc = (nums parse vs).length ∧ b.cx = present vs) := by
+  induction vs using snocInd with
+  | nil => left; exact ⟨rfl, rfl⟩
+  | append_singleton vs v ih =>
+    right
+    have hstep : foldRBWith parse exact (vs ++ [v]) = stepRBWith parse exact (foldRBWith parse exact vs) v := by
+      simp [foldRBWith, List.foldl_append]
+    rw [hstep]
+    have hsum : ∀ s0 : CV, SumOK s0 (nums parse vs) → SumOK (sumStep exact s0 (v.toCVWith parse)) (nums parse (vs ++ [v])) := by
+      intro s0 hs0
+      rw [nums_snoc]
+      cases v with
+      | absent => simpa [numOf, Val.toCVWith] using sumStep_SumOK_nonnum _ _ .backfill hs0 (Or.inl rfl)
+      | int i => simpa [numOf, Val.toCVWith, Num.toCV] using sumStep_SumOK_num _ _ (.int i) hs0
+      | flt f => simpa [numOf, Val.toCVWith, Num.toCV] using sumStep_SumOK_num _ _ (.flt f) hs0
+      | str s =>
+        cases hp : parse s with
+        | none => simpa [numOf, Val.toCVWith, hp] using sumStep_SumOK_nonnum _ _ (.str s) hs0 (Or.inr ⟨s, rfl⟩)
+        | some q => simpa [numOf, Val.toCVWith, hp, Num.toCV] using sumStep_SumOK_num _ _ (.flt q) hs0
+    have hnc : ∀ k : Nat, k = (nums parse vs).length →
+        k + (if (v.toCVWith parse).isNumeric then 1 else 0) = (nums parse (vs ++ [v])).length := by
+      intro k hk
+      subst hk
+      rw [nums_snoc]
+      cases v with
+      | str s => cases hp : parse s <;> simp [numOf, Val.toCVWith, CV.isNumeric, hp]
+      | _ => simp [numOf, Val.toCVWith, CV.isNumeric]
+    have hcx : ∀ k : Nat, k = present vs → k + (if v.isAbsent then 0 else 1) = present (vs ++ [v]) := by
+      intro k hk
+      subst hk
+      rw [present_snoc]
+      cases v <;> simp [Val.isAbsent, isPresent]
+    rcases ih with ⟨hnil, hnone⟩ | ⟨b, hb, hn, _, hs, hc, hx⟩
+    · subst hnil
+      rw [hnone]
+      refine ⟨_, rfl, by simp [newRB], by simp, ?_, ?_, ?_⟩
+      · have := hsum .backfill (Or.inl ⟨rfl, rfl⟩)
+        simp only [Option.getD, newRB]
+        have e : sumStep exact .invalid (v.toCVWith parse) = sumStep exact .backfill (v.toCVWith parse) := by
+          cases v with
+          | str s => cases hp : parse s <;> simp [sumStep, Val.toCVWith, hp]
+          | _ => simp [sumStep, Val.toCVWith]
+        rw [e]; exact this
+      · simp only [Option.getD, newRB]
+        exact hnc 0 (by simp)
+      · simp only [Option.getD, newRB]
+        exact hcx 0 (by simp)
+    · rw [hb]
+      refine ⟨_, rfl, by simp [hn], by simp, ?_, ?_, ?_⟩
+      · simp only [Option.getD]
+        exact hsum b.sum hs
+      · simp only [Option.getD]
+        exact hnc b.nc hc
+      · simp only [Option.getD]
+        exact hcx b.cx hx
+
+/-- merging two Sum cells that are right gives a Sum cell that is right for the concatenation -/
+theorem sumStep_SumOK_merge (c d : CV) (nx ny : List Num) (hc : SumOK c nx) (hd : SumOK d ny) :
+    SumOK (sumStep exact c d) (nx ++ ny) := by
+  rcases hd with ⟨rfl, rfl⟩ | ⟨hyne, hy⟩
+  · rw [List.append_nil]; exact sumStep_SumOK_nonnum c nx .backfill hc (Or.inl rfl)
+  · right
+    refine ⟨by intro h; exact hyne (List.append_eq_nil_iff.mp h).2, ?_⟩
+    rcases hc with ⟨rfl, rfl⟩ | ⟨_, hx⟩
+    · simp only [List.nil_append]
+      cases d <;> simp_all [sumStep, CV.rat?]
+    · rw [sumStep_rat c d _ _ hx hy, ratSum_append]
+
+/-- bucket merge read as numbers, every pair of lists, every string rule, no guard: record counts, numeric counts and Count
+cells add up and the merged Sum cell holds the mathematical sum of the concatenation -/
+theorem mergeRBWith_val (parse : Str → Option Rat) (xs ys : List Val) :
+    (xs ++ ys = [] ∧ mergeRB exact (foldRBWith parse exact xs) (foldRBWith parse exact ys) = none) ∨
+    (∃ m w, mergeRB exact (foldRBWith parse exact xs) (foldRBWith parse exact ys) = some m ∧
+      foldRBWith parse exact (xs ++ ys) = some w ∧
+      m.n = w.n ∧ m.nc = w.nc ∧ m.cx = w.cx ∧ SumOK m.sum (nums parse (xs ++ ys)) ∧ SumOK w.sum (nums parse (xs ++ ys))) := by
+  rcases foldRBWith_val parse xs with ⟨rfl, hxn⟩ | ⟨a, ha, han, hxne, has, hac, hax⟩
+  · rcases foldRBWith_val parse ys with ⟨rfl, hyn⟩ | ⟨b, hb, hbn, hyne, hbs, hbc, hbx⟩
+    · left; exact ⟨rfl, by rw [hxn]; rfl⟩
+    · right; rw [hxn, hb]; exact ⟨b, b, rfl, by simpa using hb, rfl, rfl, rfl, by simpa using hbs, by simpa using hbs⟩
+  · right
+    rcases foldRBWith_val parse (xs ++ ys) with ⟨hnil, _⟩ | ⟨c, hc, hcn, _, hcs, hcc, hcx⟩
+    · exact absurd (List.append_eq_nil_iff.mp hnil).1 hxne
+    · rcases foldRBWith_val parse ys with ⟨rfl, hyn⟩ | ⟨b, hb, hbn, hyne, hbs, hbc, hbx⟩
+      · rw [ha, hyn]
+        refine ⟨a, c, rfl, hc, ?_, ?_, ?_, ?_, hcs⟩
+        · rw [han, hcn]; simp
+        · rw [hac, hcc]; simp
+        · rw [hax, hcx]; simp
+        · simpa using has
+      · rw [ha, hb]
+        refine ⟨_, c, rfl, hc, ?_, ?_, ?_, ?_, hcs⟩
+        · simp [han, hbn, hcn]
+        · simp [hac, hbc, hcc, nums_append]
+        · simp [hax, hbx, hcx, present_append]
+        · rw [nums_append]; exact sumStep_SumOK_merge _ _ _ _ has hbs
 
 end SigModel.Stats
